@@ -338,14 +338,14 @@ void Hist::run() {
     namedChannels = rng.chance(50);
     std::map<std::string, int> W;
     W["rate_p"] = 6; W["rate_a"] = 6; W["decl_p"] = 10; W["decl_c"] = 8; W["param"] = 8; W["pset"] = 3; W["lock"] = 3; W["append"] = 22; W["replace"] = 7; W["extend"] = 4;
-    W["resubmit"] = 4; W["mutate"] = 4; W["pcol"] = 4; W["ccol"] = 4; W["lookups"] = 5; W["rt"] = 2; W["rtc"] = 2; W["save2"] = 1; W["print"] = 0; W["wildedit"] = wild ? 5 : 0; W["copyout"] = 1; W["rmw"] = 3; W["self"] = 3; W["selfp"] = 2; W["rencopy"] = 2; W["badload"] = 1; W["second"] = 1; W["manypts"] = 0;
+    W["resubmit"] = 4; W["mutate"] = 4; W["pcol"] = 4; W["ccol"] = 4; W["lookups"] = 5; W["rt"] = 2; W["rtc"] = 2; W["save2"] = 1; W["print"] = 0; W["wildedit"] = wild ? 5 : 0; W["copyout"] = 1; W["rmw"] = 3; W["self"] = 3; W["selfp"] = 2; W["rencopy"] = 2; W["rerate"] = 2; W["badload"] = 1; W["second"] = 1; W["manypts"] = 0;
     if (pf == "c06") { W["self"] = 8; W["rmw"] = 10; W["append"] = 25; W["replace"] = 18; W["extend"] = 12; W["pcol"] = 8; W["ccol"] = 8; W["param"] = 2; W["lookups"] = 1; }
     else if (pf == "c07") { W["second"] = 6; W["append"] = 25; W["replace"] = 10; W["extend"] = 6; W["pcol"] = 12; W["ccol"] = 12; W["decl_p"] = 12; W["decl_c"] = 10; W["param"] = 1; W["lookups"] = 0; W["rate_p"] = 8; W["rate_a"] = 8; }
     else if (pf == "c08") { W["self"] = 8; W["rmw"] = 10; W["resubmit"] = 16; W["mutate"] = 18; W["pcol"] = 8; W["ccol"] = 8; W["copyout"] = 5; W["param"] = 1; W["lookups"] = 0; }
     else if (pf == "c09") { W["rencopy"] = 10; W["selfp"] = 8; W["param"] = 40; W["pset"] = 25; W["lock"] = 15; W["append"] = 6; W["lookups"] = 2; W["rtc"] = 3; }
     else if (pf == "c10") { W["manypts"] = 2; W["param"] = 14; W["pset"] = 6; W["lock"] = 6; W["pcol"] = 10; W["ccol"] = 10; }
     else if (pf == "c11") { W["lookups"] = 45; W["decl_p"] = 14; W["decl_c"] = 10; W["param"] = 10; }
-    else if (pf == "c01") { W["rencopy"] = 5; W["rt"] = 3; W["rtc"] = 3; W["param"] = 14; W["lookups"] = 1; }
+    else if (pf == "c01") { W["rerate"] = 5; W["rencopy"] = 5; W["rt"] = 3; W["rtc"] = 3; W["param"] = 14; W["lookups"] = 1; }
     else if (pf == "c13") { W["rencopy"] = 6; W["badload"] = 8; W["selfp"] = 8; W["self"] = 8; W["print"] = 3; W["rt"] = 3; W["rtc"] = 3; W["save2"] = 2; }
     std::vector<std::pair<std::string, int> > ops(W.begin(), W.end());
     int total = 0; for (size_t i = 0; i < ops.size(); ++i) total += ops[i].second;
@@ -381,7 +381,7 @@ void Hist::run() {
         else if (n == "resubmit") ran = opResubmit(); else if (n == "mutate") ran = opMutateCaller();
         else if (n == "pcol") ran = opPointColumn(); else if (n == "ccol") ran = opChannelColumn();
         else if (n == "lookups") ran = opLookups(); else if (n == "rt") ran = opRoundTrip(false); else if (n == "rtc") ran = opRoundTrip(true);
-        else if (n == "save2") ran = opSaveTwice(); else if (n == "print") ran = opPrint(); else if (n == "wildedit") ran = opWildEdit(); else if (n == "copyout") ran = opCopyOut(); else if (n == "rmw") ran = opReadModifyWrite(); else if (n == "self") ran = opSelfFrame(); else if (n == "selfp") ran = opSelfParam(); else if (n == "rencopy") ran = opRenameCopy(); else if (n == "badload") ran = opFailedLoad(); else if (n == "second") ran = opSecondObject(); else if (n == "manypts") ran = opManyPoints();
+        else if (n == "save2") ran = opSaveTwice(); else if (n == "print") ran = opPrint(); else if (n == "wildedit") ran = opWildEdit(); else if (n == "copyout") ran = opCopyOut(); else if (n == "rmw") ran = opReadModifyWrite(); else if (n == "self") ran = opSelfFrame(); else if (n == "selfp") ran = opSelfParam(); else if (n == "rencopy") ran = opRenameCopy(); else if (n == "rerate") ran = opReRate(); else if (n == "badload") ran = opFailedLoad(); else if (n == "second") ran = opSecondObject(); else if (n == "manypts") ran = opManyPoints();
         else ran = false;
         if (ran) ++done;
     }
